@@ -63,7 +63,8 @@ def st_array_op(draw, shape_rank, extra=()):
         return {'o': 'copy', 'chunklen': draw(st.sampled_from([None, 1, 2, 3]))}
     if o == 'ctx':
         inner = [draw(st.one_of(st.builds(lambda a: {'o': 'append', 'arg': a}, st_append_arg(valid_only=True)),
-                                st.just({'o': 'iterappend', 'chunks': [{'k': 'rows', 'n': 2, 'seed': 5}, {'k': 'zero', 'n': 1, 'seed': 6}], 'gen': True})))
+                                st.just({'o': 'iterappend', 'chunks': [{'k': 'rows', 'n': 2, 'seed': 5}, {'k': 'zero', 'n': 1, 'seed': 6}], 'gen': True}),
+                                st.builds(lambda i: {'o': 'trunc-loose', 'i': i}, st.sampled_from([0, 1, -1, 'half']))))
                  for _ in range(draw(st.integers(1, 3)))]
         return {'o': 'ctx', 'ops': inner, 'via': draw(st.sampled_from(['open_array', 'iterchunks']))}
     raise ValueError(o)
@@ -496,6 +497,22 @@ class ArrayRun:
                         self.out.viol('prefix-changed', tag, f'step {self.stepno}: truncate did not keep exactly the leading bytes')
                         return False
             return self.observe(tag)
+        if o == 'trunc-loose':
+            # truncation while the array is held open: what it should do is not part of any listed property (the cached map has an
+            # outdated length), so only consistency is required: afterwards files, descriptor and a fresh handle must agree.
+            idx = trunc_index(op['i'], len(m))
+            self.out.cls('truncate-inside-open-context')
+            try:
+                darr.truncate_array(a, idx)
+            except Exception:
+                pass
+            try:
+                fresh = darr.Array(self.path)
+                self.m = fresh[:].copy()
+            except Exception as e:
+                self.out.viol('fresh-open-raised', 'truncate-inside-open-context', f'step {self.stepno}: {type(e).__name__}: {e}')
+                return False
+            return self.observe('truncate-inside-open-context')
         if o == 'mode':
             self.kinds.append('mode')
             if not self.expect_ok('mode', lambda: setattr(a, 'accessmode', op['m'])):
